@@ -333,14 +333,17 @@ def lenM : V → R (UInt16 × V)
     pure (8 + 16 + lm + 2 + le, .obj "PacketIn" [h, b, t, r, ti, c, m, pad, eth])
   | _ => .panic
 
-/-- Header.Length is not updated.  `PutUint64(b, p.Cookie)` is written at offset 0 of the 16-byte block, over
-    BufferId/TotalLen/Reason/TableId; bytes 8..15 stay zero. -/
-def marshalM : V → R (Bytes × V)
-  | .obj "PacketIn" [h, b, t, r, ti, .num c, m, .bytes pad, eth] => do
+/-- `p.Header.Length = p.Len()`, header, the 16 fixed bytes, match, pad, packet -/
+def marshalM (v : V) : R (Bytes × V) := do
+  let (l, v) ← lenM v
+  match v with
+  | .obj "PacketIn" [h, .num b, .num t, .num r, .num ti, .num c, m, .bytes pad, eth] => do
+    let h := Header.setLength l h
     let hb ← Header.bytes h
     let (mb, m) ← msgTryM Match.marshalM m
     let (eb, eth) ← PEthernet.marshalM eth
-    pure (hb ++ (be64 (n64 c) ++ zeros 8) ++ mb ++ makeCopy 2 pad ++ eb, .obj "PacketIn" [h, b, t, r, ti, .num c, m, .bytes pad, eth])
+    pure (hb ++ (be32 (n32 b) ++ be16 (n16 t) ++ [n8 r, n8 ti] ++ be64 (n64 c)) ++ mb ++ makeCopy 2 pad ++ eb,
+      .obj "PacketIn" [h, .num b, .num t, .num r, .num ti, .num c, m, .bytes pad, eth])
   | _ => .panic
 
 def unmarshal (recv : V) (data : Slice) : R V :=
